@@ -7,7 +7,9 @@
 EXTENDS TrackStore, Json, Integers, Randomization
 CONSTANTS D,        \* behaviour length
           Alpha,    \* "full" | "small" : operation alphabet
-          Sim       \* 0 = enumerate every operation; k > 0 = draw k candidate operations per step (for -simulate)
+          Sim,      \* 0 = enumerate every operation; k > 0 = draw k candidate operations per step (for -simulate)
+          Pre       \* 0 = behaviours start from the empty store; 1 = every behaviour starts by adding two tracks (ids 1, 2
+                    \* with observations in different classes), so that short behaviours reach successful owned merges
 VARIABLE h
 
 HasObs(t) == \E c \in Classes : t.obs[c] # <<>>
@@ -57,7 +59,14 @@ ValidOps == {o \in Ops : Valid(o)}
 Step(o) == LET r == Exec(store, o) IN
            /\ store' = r.st
            /\ h' = Append(h, [o |-> o, ret |-> r.ret, notes |-> r.notes, proj |-> PJ(r.st)])
-GInit == Init /\ h = <<>>
+PreOps == IF Pre = 0 THEN <<>>
+          ELSE <<[op |-> "add_track", id |-> 1, cls |-> 0, v |-> 2], [op |-> "add_track", id |-> 2, cls |-> 1, v |-> 2]>>
+RECURSIVE Run(_, _, _)
+Run(st, hh, ops) ==
+  IF ops = <<>> THEN [st |-> st, h |-> hh]
+  ELSE LET r == Exec(st, Head(ops)) IN
+       Run(r.st, Append(hh, [o |-> Head(ops), ret |-> r.ret, notes |-> r.notes, proj |-> PJ(r.st)]), Tail(ops))
+GInit == LET r == Run(Empty, <<>>, PreOps) IN store = r.st /\ h = r.h
 GNext == /\ Len(h) < D
          /\ \E o \in (IF Sim = 0 THEN ValidOps ELSE RandomSubset(Sim, ValidOps)) : Step(o)
 GSpec == GInit /\ [][GNext]_<<store, h>>
